@@ -60,7 +60,7 @@ Proof. intros [l1 ->] [l2 ->]. exists (l1 ++ l2). rewrite app_assoc; reflexivity
 Lemma xrun_task_log : forall fuel q k k', xrun_task FUEL fuel q k = Some k' -> k_log k' = k_log k.
 Proof.
   induction fuel as [|f IH]; intros q k k' E; [discriminate|]. cbn [xrun_task] in E.
-  destruct (getd None q (k_slab k)); [|some_eq E; reflexivity].
+  destruct (xget q (k_slab k)); [|some_eq E; reflexivity].
   destruct (poll_next FUEL n (WExec q) (k_H k)) as [[r H1]|]; [|discriminate].
   destruct r.
   - some_eq E; reflexivity.
